@@ -190,6 +190,12 @@ impl CostK {
     }
     /// the documented formula, as an array
     pub fn apply_ref(&self, output: &T, target: &T) -> Result<T, RErr> {
+        self.apply_ref_guarded(output, target, true)
+    }
+
+    /// `guard`: keep outputs of the cross-entropy away from 0 (needed where its derivative is compared;
+    /// the cost itself is defined for every positive output)
+    pub fn apply_ref_guarded(&self, output: &T, target: &T, guard: bool) -> Result<T, RErr> {
         match self {
             CostK::Mse => {
                 let n = output.len() as f64;
@@ -199,7 +205,7 @@ impl CostK {
             CostK::CrossEntropy => {
                 let lead = output.dims[0] as f64;
                 for d in &output.x {
-                    if !(d.v > 1e-6) {
+                    if !(d.v > if guard { 1e-6 } else { 0.0 }) {
                         return Err(RErr::Domain);
                     }
                 }
